@@ -149,7 +149,12 @@ def linear_matrix_action(linear_map, n, **kwargs):
 
             b_image = linear_map(bm)
 
-            map_matrix[:, i*n + j] = gln_lie_algebra_coords(
+            if np.ndim(b_image) > 2 and map_matrix.ndim == 2:
+                # linear_map returned a stack of matrices
+                map_matrix = utils.zeros(np.shape(b_image)[:-2] + (n*n, n*n),
+                                         base_ring, dtype)
+
+            map_matrix[..., i*n + j] = gln_lie_algebra_coords(
                 b_image, autoconvert=False
             )
 
@@ -171,7 +176,12 @@ def sln_linear_action(linear_map, n, **kwargs):
 
             b_image = linear_map(bm)
 
-            map_matrix[:, i*n + j] = sln_lie_algebra_coords(
+            if np.ndim(b_image) > 2 and map_matrix.ndim == 2:
+                # linear_map returned a stack of matrices
+                map_matrix = utils.zeros(np.shape(b_image)[:-2] + (n**2 - 1, n**2 - 1),
+                                         base_ring, dtype)
+
+            map_matrix[..., i*n + j] = sln_lie_algebra_coords(
                 b_image, autoconvert=False
             )
 
